@@ -61,7 +61,7 @@ def run(ctx: Ctx) -> int:
         "hand-written layouts, structured shapes and the whole repository corpus. Per program: (1) one-step induction - pc and the return address are solver variables over "
         "all reachable instructions / valid return addresses, the negated walk property must be unsat; (2) retained == reachable by z3's fixedpoint engine; (3) mirror/closure "
         "as relation equality over symbolic block ids; (4) bz/bnz successor order",
-        [PT.create_bb, PT.first_pass, PT.second_pass, PT.fourth_pass, PT.identify_subroutine_blocks, PT.parse_teal],
+        [lambda: PT.create_bb, lambda: PT.first_pass, lambda: PT.second_pass, lambda: PT.fourth_pass, lambda: PT.identify_subroutine_blocks, lambda: PT.parse_teal],
         {"max_slots": 4 if ctx.quick else 6, "labels": 3},
         ["every branch outcome is possible (data ignored): the stepper over-approximates real executions",
          "programs are assembler-valid and structured (subroutine bodies entered only through callsub)"],
